@@ -31,7 +31,9 @@ pub enum Target { State(usize, Vec<Term>), Done(Term) }
 pub enum Arm { Direct(Target), Guarded(Vec<(Guard, Target)>) }
 
 #[derive(Clone, Debug, Serialize, Deserialize, PartialEq)]
-pub enum IllFormed { None, TargetUndeclared, TargetDeclaredWithoutArm }
+pub enum IllFormed { None, TargetUndeclared, TargetDeclaredWithoutArm,
+  /// the output arm yields a value of another kind than the declared `<u64>` (scalar family only)
+  OutputOfOtherKind }
 
 /// Array-pattern family: one state `:Scan(xs<[u64]>, acc<u64>)` whose arms destructure the vector.
 #[derive(Clone, Debug, Serialize, Deserialize, PartialEq)]
@@ -146,7 +148,11 @@ impl Machine {
         }
       }
     }
-    s.push_str("  :Done(out) => out.\n");
+    if self.ill == IllFormed::OutputOfOtherKind {
+      s.push_str(&format!("  :Done(out) => {}.\n", ["1.5", "\"s\"", "7u8"][self.arity % 3]));
+    } else {
+      s.push_str("  :Done(out) => out.\n");
+    }
     s
   }
 }
@@ -315,6 +321,7 @@ pub fn gen_machine(rng: &mut Rng) -> Machine {
   match rng.below(12) {
     0 => { m.ill = IllFormed::TargetUndeclared; retarget(&mut m, rng, 4); }
     1 => { m.ill = IllFormed::TargetDeclaredWithoutArm; retarget(&mut m, rng, 5); }
+    2 => { m.ill = IllFormed::OutputOfOtherKind; }
     _ => {}
   }
   m
@@ -449,7 +456,17 @@ fn execute_on_thread(pl: &Plan, progress: &std::sync::Arc<std::sync::Mutex<(Stri
         if let Outcome::Escaped { msg, .. } = &outcome { found = Some(vio("host-aborted", "panic-escaped", format!("panic escaped interpret(): {}", msg))); }
       }
       Invocation::Ok(vals) => {
-        if m.ill != IllFormed::None {
+        if m.ill == IllFormed::OutputOfOtherKind {
+          // judged only where the declaration determines that the output arm is reached within the budget
+          let rr = reference(m, vals);
+          if let RefEnd::Value(_) = &rr.end {
+            if rr.visited.len() + 1 <= *budget {
+              bump(&mut counters, "fault:output-of-other-kind", 1);
+              if outcome.is_ok() { found = Some(vio("ill-formed-machine-accepted", "output-of-other-kind", format!("`{}` on a machine declared `=> <u64>` whose output arm yields another kind returned {}", inv_text, outcome.show()))); }
+            }
+          }
+          if let Outcome::Escaped { msg, .. } = &outcome { found = Some(vio("host-aborted", "panic-escaped", format!("panic escaped interpret(): {}", msg))); }
+        } else if m.ill != IllFormed::None {
           bump(&mut counters, if m.ill == IllFormed::TargetUndeclared { "fault:transition-to-undeclared-state" } else { "fault:declared-state-without-arm" }, 1);
           if outcome.is_ok() { found = Some(vio("ill-formed-machine-accepted", if m.ill == IllFormed::TargetUndeclared { "undeclared-target" } else { "declared-state-without-arm" }, format!("machine with {:?} was accepted: {}", m.ill, outcome.show()))); }
         } else {
